@@ -3,6 +3,7 @@
 From SP Require Import Model.Syntax Model.Scanner.
 From SP Require Import Proofs.PegP Proofs.SyntaxP Proofs.ParseP.
 From SP Require Import Proofs.NumP Proofs.RangeSynP Proofs.OpSynP Proofs.BlockSynP Proofs.RejectP.
+From SP Require Import Proofs.FirstP Proofs.NamesP.
 
 (* an accepted block is consumed to its very end: nothing is left unparsed *)
 Theorem C12_no_trailing_text :
@@ -177,4 +178,81 @@ Check C12_unclosed_spelled_block_is_refused :
   forall (dbg : bool) (items : list (op * str)), all_spelled spells items ->
   template_parse (123 :: (if dbg then [33] else []) ++ pipe_text (texts items))%N = Err.
 Print Assumptions C12_unclosed_spelled_block_is_refused.
+
+(* FirstP.starters computes, from the REGENERATED grammar, how every rule can begin; here it is
+   compared with the documented table NamesP.op_begin on every rule occurrence: each operation
+   rule begins with its own documented name and with nothing else, the shorthand with a numeral
+   or a range *)
+Theorem C12_operation_names_are_the_documented_ones :
+  all_rules (chk_begin op_begin starter_eqb) r_template = true.
+Proof. exact grammar_names_checked. Qed.
+Check C12_operation_names_are_the_documented_ones :
+  all_rules (chk_begin op_begin starter_eqb) r_template = true.
+Print Assumptions C12_operation_names_are_the_documented_ones.
+
+(* for ALL strings: whatever the grammar accepts, every node of the parse -- every operation at
+   top level and inside map:{...}, at any depth -- carries a text that begins with the documented
+   name of that operation (a numeral / range for the shorthand): no unknown name is ever read
+   as an operation *)
+Theorem C12_every_operation_begins_with_its_name :
+  forall (s t r : str) (k : list ptree),
+  run r_template false s = Some (t, k, r) -> Forall (every_node op_begins_right) k.
+Proof. exact every_operation_begins_with_its_name. Qed.
+Check C12_every_operation_begins_with_its_name :
+  forall (s t r : str) (k : list ptree),
+  run r_template false s = Some (t, k, r) -> Forall (every_node op_begins_right) k.
+Print Assumptions C12_every_operation_begins_with_its_name.
+
+(* ... and that text is the name followed by ":" for the operations that take arguments (a missing
+   argument list is never accepted), by ":" or nothing for trim and sort, and by nothing at all for
+   upper, lower, reverse, unique, strip_ansi (no surplus argument is ever part of such a node) *)
+Theorem C12_every_operation_is_name_then_arguments :
+  forall (s t r : str) (k : list ptree),
+  run r_template false s = Some (t, k, r) -> Forall (every_node op_after_right) k.
+Proof. exact every_operation_is_name_then_arguments. Qed.
+Check C12_every_operation_is_name_then_arguments :
+  forall (s t r : str) (k : list ptree),
+  run r_template false s = Some (t, k, r) -> Forall (every_node op_after_right) k.
+Print Assumptions C12_every_operation_is_name_then_arguments.
+
+(* what the two predicates say, spelled out *)
+Theorem C12_begins_right_means :
+  forall (id : rule) (txt : str),
+  (op_begins_right id txt <-> (forall l, op_begin id = Some l -> Exists (fun st => starts st txt) l)) /\
+  (op_after_right id txt <-> (forall name mandatory l, op_after id = Some (name, mandatory, l) ->
+      exists u, txt = name ++ u /\ ((u = [] /\ mandatory = false) \/ Exists (fun st => starts st u) l))).
+Proof. exact op_begins_right_unfold. Qed.
+Check C12_begins_right_means :
+  forall (id : rule) (txt : str),
+  (op_begins_right id txt <-> (forall l, op_begin id = Some l -> Exists (fun st => starts st txt) l)) /\
+  (op_after_right id txt <-> (forall name mandatory l, op_after id = Some (name, mandatory, l) ->
+      exists u, txt = name ++ u /\ ((u = [] /\ mandatory = false) \/ Exists (fun st => starts st u) l))).
+Print Assumptions C12_begins_right_means.
+
+(* "{" or "{!" followed by any text that is not empty, does not begin with "}" or "!" and does not
+   begin with a documented operation name, a digit, "-" or "..": a parse error, whatever follows *)
+Theorem C12_unknown_operation_is_refused :
+  forall (dbg : bool) (c : N) (w : str),
+  N.eqb 125 c = false -> N.eqb 33 c = false -> begins_like_operation (c :: w) = false ->
+  parse_template (123%N :: (if dbg then [33%N] else []) ++ c :: w) = Err.
+Proof. exact unknown_operation_rejected. Qed.
+Check C12_unknown_operation_is_refused :
+  forall (dbg : bool) (c : N) (w : str),
+  N.eqb 125 c = false -> N.eqb 33 c = false -> begins_like_operation (c :: w) = false ->
+  parse_template (123%N :: (if dbg then [33%N] else []) ++ c :: w) = Err.
+Print Assumptions C12_unknown_operation_is_refused.
+
+(* {bogus}, {Upper}, { upper}, {!uper|lower} meet the hypotheses *)
+Theorem C12_unknown_operation_examples :
+  parse_template [123; 98; 111; 103; 117; 115; 125]%N = Err /\
+  parse_template [123; 85; 112; 112; 101; 114; 125]%N = Err /\
+  parse_template [123; 32; 117; 112; 112; 101; 114; 125]%N = Err /\
+  parse_template ([123; 33] ++ [117; 112; 101; 114; 124; 108; 111; 119; 101; 114; 125])%N = Err.
+Proof. exact unknown_names_rejected. Qed.
+Check C12_unknown_operation_examples :
+  parse_template [123; 98; 111; 103; 117; 115; 125]%N = Err /\
+  parse_template [123; 85; 112; 112; 101; 114; 125]%N = Err /\
+  parse_template [123; 32; 117; 112; 112; 101; 114; 125]%N = Err /\
+  parse_template ([123; 33] ++ [117; 112; 101; 114; 124; 108; 111; 119; 101; 114; 125])%N = Err.
+Print Assumptions C12_unknown_operation_examples.
 
